@@ -137,7 +137,7 @@ pub fn make_epoch_cheap(rng: &mut SRng, stakes: &[u64], family: &str) -> Epoch {
     }
 }
 
-pub const FAMILIES: &[&str] = &["equal", "smallint", "exact5", "exact10", "exact100", "heavy", "whale60", "whale80", "lamports"];
+pub const FAMILIES: &[&str] = &["equal", "smallint", "exact5", "exact10", "exact100", "heavy", "whale60", "whale80", "lamports", "lamports-whale"];
 
 /// Generates stakes for `n` validators from the named family.
 pub fn gen_stakes(rng: &mut SRng, family: &str, n: usize) -> Vec<u64> {
@@ -188,6 +188,16 @@ pub fn gen_stakes(rng: &mut SRng, family: &str, n: usize) -> Vec<u64> {
             v
         }
         "lamports" => (0..n).map(|_| rng.random_range(1_000_000_000u64..400_000_000_000_000u64)).collect(),
+        "lamports-whale" => {
+            let mut v: Vec<u64> = (0..n).map(|_| rng.random_range(1_000_000_000u64..40_000_000_000_000u64)).collect();
+            let rest: u128 = v.iter().map(|s| *s as u128).sum();
+            let i = rng.random_range(0..n);
+            // one validator with 50..90 % of a total around 10^17..10^18
+            let pct = rng.random_range(50..90u128);
+            let whale = (rest * pct / (100 - pct)).clamp(1, 3_000_000_000_000_000_000) as u64;
+            v[i] = whale;
+            v
+        }
         _ => panic!("unknown stake family {family}"),
     }
 }
